@@ -232,15 +232,21 @@ class Container:
         raise NotImplementedError
 
     def _checkForCrossReferences(self, memo=None):
-        if not self._checkedForCrossReferences:
-            if memo is None:
-                memo = set()
-            if any(x is self for x in memo):
-                raise ContainerException(f"cannot fill a tree that contains the same aggregator twice: {self}")
-            memo.add(self)
-            for child in self.children:
+        if memo is None:
+            if self._checkedForCrossReferences:
+                return
+            memo = {}
+        # identity-keyed: an aggregator already seen in this walk (sibling, cousin or ancestor) is a cross-reference
+        # even if an earlier walk has already marked it as checked
+        if id(self) in memo:
+            raise ContainerException(f"cannot fill a tree that contains the same aggregator twice: {self}")
+        memo[id(self)] = self
+        # the ``value`` of SparselyBin/Categorize is a never-filled template (None when reloaded) and may be shared
+        template = self.__dict__.get("value")
+        for child in self.children:
+            if child is not template:
                 child._checkForCrossReferences(memo)
-            self._checkedForCrossReferences = True
+        self._checkedForCrossReferences = True
 
     def toJsonFile(self, fileName):
         path = Path(fileName)
